@@ -303,6 +303,9 @@ func (in *inliner) normalise(o *types.Func) {
 	if fd != nil && fd.Body != nil {
 		before := in.count
 		fd.Body = in.block(fd.Body, o)
+		if nb := in.wholeBody(fd.Body, fd.Type, o); nb != nil {
+			fd.Body = in.block(nb, o)
+		}
 		if in.count > before {
 			// a mode argument that arrived as a constant decides branches of the expanded body (if isDelta { … })
 			fd.Body = in.pruneConst(fd.Body)
@@ -322,6 +325,9 @@ func (in *inliner) normalise(o *types.Func) {
 			for _, l := range lits {
 				in.litDone[l] = true
 				l.Body = in.block(l.Body, o)
+				if nb := in.wholeBody(l.Body, l.Type, o); nb != nil {
+					l.Body = in.pruneConst(in.block(nb, o))
+				}
 			}
 		}
 		if d := os.Getenv("VERIF_DUMPNORM"); d != "" && d == fd.Name.Name {
@@ -1291,6 +1297,279 @@ func (in *inliner) bodyLiteral(call *ast.CallExpr, within *types.Func) *ast.Call
 	if tv, has := in.info.Types[call]; has {
 		in.info.Types[out] = tv
 	}
+	in.count++
+	return out
+}
+
+// wholeBody: a function (literal) whose entire body is one call of a new function — h(a…), v… = h(a…) or return h(a…) — runs
+// h in a frame that begins and ends with its own: h's deferred calls run where the caller's would, so h's body can stand in
+// for the call even when it defers or returns from several places (the ordinary expansion refuses those). Parameters are
+// bound at the top (or substituted when the argument is a variable that keeps its value); `return E` becomes `v = E; return`.
+func (in *inliner) wholeBody(body *ast.BlockStmt, ft *ast.FuncType, within *types.Func) *ast.BlockStmt {
+	if body == nil || len(body.List) != 1 {
+		return nil
+	}
+	var call *ast.CallExpr
+	var lhs []ast.Expr
+	form := 0
+	switch s := body.List[0].(type) {
+	case *ast.ExprStmt:
+		call, _ = unparen(s.X).(*ast.CallExpr)
+		form = 1
+	case *ast.AssignStmt:
+		if s.Tok == token.ASSIGN && len(s.Rhs) == 1 {
+			call, _ = unparen(s.Rhs[0]).(*ast.CallExpr)
+			lhs = s.Lhs
+			form = 2
+			for _, l := range lhs {
+				id, isID := l.(*ast.Ident)
+				if !isID {
+					return nil
+				}
+				if id.Name == "_" {
+					continue
+				}
+				v, isV := in.info.Uses[id].(*types.Var)
+				if !isV || v.IsField() || (v.Pkg() != nil && v.Parent() == v.Pkg().Scope()) {
+					return nil
+				}
+			}
+		}
+	case *ast.ReturnStmt:
+		if len(s.Results) == 1 {
+			call, _ = unparen(s.Results[0]).(*ast.CallExpr)
+			form = 3
+		}
+	}
+	if call == nil || call.Ellipsis.IsValid() {
+		return nil
+	}
+	f := callee(in.info, call)
+	if f == nil {
+		return nil
+	}
+	f = f.Origin()
+	fd := in.decls[f]
+	if !in.fresh[f] || f == within || fd == nil || fd.Body == nil || in.state[f] == 1 {
+		return nil
+	}
+	in.normalise(f)
+	fd = in.decls[f]
+	sig := f.Type().(*types.Signature)
+	if sig.Variadic() || len(call.Args) != sig.Params().Len() {
+		return nil
+	}
+	if form == 2 && sig.Results().Len() != len(lhs) {
+		return nil
+	}
+	if form == 3 {
+		n := 0
+		if ft != nil && ft.Results != nil {
+			for _, fl := range ft.Results.List {
+				if len(fl.Names) == 0 {
+					n++
+				}
+				n += len(fl.Names)
+			}
+		}
+		if n != sig.Results().Len() {
+			return nil
+		}
+	}
+	// the callee: no labels/goto/recover, no self call; named results are not touched by its closures
+	named := map[types.Object]bool{}
+	for i := 0; i < sig.Results().Len(); i++ {
+		if r := sig.Results().At(i); r.Name() != "" && r.Name() != "_" {
+			named[r] = true
+		}
+	}
+	ok := true
+	lits := 0
+	var visit func(n ast.Node) bool
+	visit = func(n ast.Node) bool {
+		switch x := n.(type) {
+		case *ast.LabeledStmt:
+			ok = false
+		case *ast.BranchStmt:
+			if x.Tok == token.GOTO || x.Label != nil {
+				ok = false
+			}
+		case *ast.FuncLit:
+			lits++
+			ast.Inspect(x.Body, visit)
+			lits--
+			return false
+		case *ast.Ident:
+			if lits > 0 && named[in.info.Uses[x]] {
+				ok = false
+			}
+		case *ast.CallExpr:
+			if builtinName(in.info, x) == "recover" {
+				ok = false
+			}
+			if cf := callee(in.info, x); cf != nil && cf.Origin() == f {
+				ok = false
+			}
+		}
+		return ok
+	}
+	ast.Inspect(fd.Body, visit)
+	if !ok {
+		return nil
+	}
+	wfd := in.decls[within]
+	stableVar := func(e ast.Expr) bool {
+		id, isID := unparen(e).(*ast.Ident)
+		if !isID || wfd == nil {
+			return false
+		}
+		v, isV := in.info.Uses[id].(*types.Var)
+		if !isV || v.IsField() {
+			return false
+		}
+		n := 0
+		ast.Inspect(wfd.Body, func(m ast.Node) bool {
+			switch s := m.(type) {
+			case *ast.AssignStmt:
+				for _, l := range s.Lhs {
+					if sameVar(in.info, l, v) {
+						n++
+					}
+				}
+			case *ast.IncDecStmt:
+				if sameVar(in.info, s.X, v) {
+					n += 2
+				}
+			case *ast.UnaryExpr:
+				if s.Op == token.AND && sameVar(in.info, s.X, v) {
+					n += 2
+				}
+			case *ast.RangeStmt:
+				for _, e := range []ast.Expr{s.Key, s.Value} {
+					if e != nil && sameVar(in.info, e, v) {
+						n += 2
+					}
+				}
+			}
+			return true
+		})
+		return n <= 1
+	}
+	subst := map[types.Object]ast.Expr{}
+	var pre []ast.Stmt
+	pass := func(p *types.Var, arg ast.Expr) {
+		if (p.Name() == "_" || p.Name() == "") && in.simpleArg(arg) {
+			return
+		}
+		if stableVar(arg) && !assignedIn(in.info, fd.Body, p) {
+			subst[p] = arg
+			return
+		}
+		id := &ast.Ident{NamePos: call.Pos(), Name: p.Name()}
+		if id.Name == "" {
+			id.Name = "_"
+		}
+		in.info.Defs[id] = p
+		pre = append(pre, &ast.AssignStmt{Lhs: []ast.Expr{id}, TokPos: call.Pos(), Tok: token.DEFINE, Rhs: []ast.Expr{arg}})
+	}
+	if r := sig.Recv(); r != nil {
+		sel, isSel := unparen(call.Fun).(*ast.SelectorExpr)
+		if !isSel {
+			return nil
+		}
+		s := in.info.Selections[sel]
+		if s == nil || s.Kind() != types.MethodVal {
+			return nil
+		}
+		recv := ast.Expr(sel.X)
+		if len(s.Index()) > 1 {
+			if recv = in.explicitRecv(sel, s); recv == nil {
+				return nil
+			}
+		}
+		_, wantPtr := r.Type().(*types.Pointer)
+		if tv, has := in.info.Types[recv]; has {
+			_, isPtr := tv.Type.Underlying().(*types.Pointer)
+			if wantPtr != isPtr {
+				return nil
+			}
+		} else {
+			return nil
+		}
+		pass(r, recv)
+	}
+	for i, a := range call.Args {
+		pass(sig.Params().At(i), a)
+	}
+	// named results become locals of the spliced body
+	var resIDs []ast.Expr
+	for i := 0; i < sig.Results().Len(); i++ {
+		r := sig.Results().At(i)
+		if !named[r] {
+			continue
+		}
+		id := &ast.Ident{NamePos: call.Pos(), Name: r.Name()}
+		in.info.Defs[id] = r
+		pre = append(pre, &ast.DeclStmt{Decl: &ast.GenDecl{TokPos: call.Pos(), Tok: token.VAR, Specs: []ast.Spec{&ast.ValueSpec{Names: []*ast.Ident{id}, Type: typeExprPlaceholder(in.info, r.Type(), call.Pos())}}}})
+	}
+	if len(named) > 0 {
+		if len(named) != sig.Results().Len() {
+			return nil
+		}
+		for i := 0; i < sig.Results().Len(); i++ {
+			r := sig.Results().At(i)
+			id := &ast.Ident{NamePos: call.Pos(), Name: r.Name()}
+			in.info.Uses[id] = r
+			in.info.Types[id] = types.TypeAndValue{Type: r.Type()}
+			resIDs = append(resIDs, id)
+		}
+	}
+	cp := &copier{info: in.info, subst: subst}
+	cp.onReturn = func(r *ast.ReturnStmt) ast.Stmt {
+		inner := &copier{info: in.info, subst: subst}
+		var vals []ast.Expr
+		for _, e := range r.Results {
+			vals = append(vals, inner.node(e).(ast.Expr))
+		}
+		if len(vals) == 0 {
+			vals = resIDs
+		}
+		switch form {
+		case 3:
+			return &ast.ReturnStmt{Return: r.Return, Results: vals}
+		case 2:
+			if len(vals) == 0 {
+				return &ast.ReturnStmt{Return: r.Return}
+			}
+			return &ast.BlockStmt{Lbrace: r.Return, List: []ast.Stmt{
+				&ast.AssignStmt{Lhs: lhs, TokPos: r.Return, Tok: token.ASSIGN, Rhs: vals},
+				&ast.ReturnStmt{Return: r.Return},
+			}, Rbrace: r.End()}
+		}
+		// results dropped: only their evaluation remains
+		var blanks []ast.Expr
+		keep := false
+		for _, v := range vals {
+			if !in.simpleArg(v) {
+				keep = true
+			}
+		}
+		if !keep || len(r.Results) == 0 {
+			return &ast.ReturnStmt{Return: r.Return}
+		}
+		for i := 0; i < sig.Results().Len(); i++ {
+			blanks = append(blanks, &ast.Ident{NamePos: r.Return, Name: "_"})
+		}
+		return &ast.BlockStmt{Lbrace: r.Return, List: []ast.Stmt{
+			&ast.AssignStmt{Lhs: blanks, TokPos: r.Return, Tok: token.ASSIGN, Rhs: vals},
+			&ast.ReturnStmt{Return: r.Return},
+		}, Rbrace: r.End()}
+	}
+	nb := cp.node(fd.Body).(*ast.BlockStmt)
+	out := &ast.BlockStmt{Lbrace: body.Lbrace, Rbrace: body.Rbrace}
+	out.List = append(out.List, pre...)
+	out.List = append(out.List, nb.List...)
+	// a body that ran off its end returned nothing: with named results and form 2/3 that cannot happen (a return is required)
 	in.count++
 	return out
 }
